@@ -555,6 +555,7 @@ pub fn check(case: &Case) -> Verdict {
     );
     info.class_if(pat.patterns.iter().any(|p| p.contains(['\r', '\n', '\0'])), "raw_control_byte_in_accepted_pattern");
     info.class_if(pat.ban_nul, "nul_banned");
+    info.class_if(pat.case == CaseMode::Insensitive && pat.patterns.len() == 1 && pat.patterns[0].matches('|').count() >= 4, "wide_case_insensitive_alternation");
     info.class_if(pat.word, "word");
     info.class_if(pat.whole_line, "whole_line");
     info.class_if(pat.case != CaseMode::Sensitive, "case_insensitive_or_smart");
@@ -648,6 +649,21 @@ pub fn gen_case(t: &mut Tape) -> Case {
         let cuts: Vec<usize> = p.char_indices().map(|(k, _)| k).chain(std::iter::once(p.len())).collect();
         let at = cuts[t.below(cuts.len())];
         p.insert_str(at, raw);
+    }
+    if !pat.fixed && t.chance(1, 10) {
+        // a wide alternation of words, case-insensitively: more literals than the inner-literal
+        // extractor keeps (limit_total = 64 after trimming), so it has to give up soundly
+        let n = 3 + t.below(6);
+        let words: Vec<String> = (0..n)
+            .map(|_| {
+                let len = 3 + t.below(3);
+                (0..len).map(|_| *t.pick(&['a', 'b', 'c', 'k', 's', 'x', 'm', 'q'])).collect::<String>()
+            })
+            .collect();
+        pat.patterns = vec![if t.bool() { words.join("|") } else { format!("(?:{})[0-9]", words.join("|")) }];
+        pat.case = CaseMode::Insensitive;
+        pat.word = t.bool();
+        pat.whole_line = false;
     }
     if !pat.fixed && t.chance(1, 8) {
         // a haystack anchor on some paths through the pattern only (one alternation branch, an
